@@ -341,6 +341,15 @@ func newWorld() *world {
 	w.msgHook = w.A.OnMsgArrivedWrapper(func(context.Context, server.Client, *server.MsgArrivedRequest) error { return nil })
 	w.B.VerifStartEventHandler()
 	w.B.VerifInjectMemberEvent(serf.EventMemberJoin, "A", "B")
+	// a second peer C of A that nobody serves, whose queue is two events ahead of B's: every event A emits is queued for
+	// both, with different ids (an Event object shared between the queues would carry the wrong id for one of them)
+	w.A.VerifNodeJoin("C", "A")
+	ctx := context.Background()
+	shadow := &gmqtt.Subscription{TopicFilter: "shadow/x"}
+	w.aSubs.Subscribe("shadow", shadow)
+	w.subHook(ctx, &fakeMQTTClient{opts: server.ClientOptions{ClientID: "shadow"}}, shadow)
+	w.aSubs.Unsubscribe("shadow", "shadow/x")
+	w.unsubHook(ctx, &fakeMQTTClient{opts: server.ClientOptions{ClientID: "shadow"}}, "shadow/x")
 	w.joinA()
 	return w
 }
@@ -388,17 +397,33 @@ func (w *world) endClient(l *link, recvFirst bool) {
 		<-w.closedAt
 	}
 	if recvFirst {
-		l.cliRecvCh <- cliMsg{err: errBroken}
+		select {
+		case l.cliRecvCh <- cliMsg{err: errBroken}:
+		case <-time.After(handoff):
+			panic(machErr{"hand-off timeout: nobody takes `l.cliRecvCh <- cliMsg{err: errBroken}`"})
+		}
 		// readLoop: setError -> queue.close; sendEvents is held before fetchEvents: let it see the closed queue
 		wait(w.closedAt, "readLoop closes the queue")
-		w.fetchGo <- struct{}{}
+		select {
+		case w.fetchGo <- struct{}{}:
+		case <-time.After(handoff):
+			panic(machErr{"hand-off timeout: nobody takes `w.fetchGo <- struct{}{}`"})
+		}
 	} else {
 		// sendEvents is let go, runs into the failing Send, ends and closes the queue; then readLoop gets the
 		// error of the closed connection
-		w.fetchGo <- struct{}{}
+		select {
+		case w.fetchGo <- struct{}{}:
+		case <-time.After(handoff):
+			panic(machErr{"hand-off timeout: nobody takes `w.fetchGo <- struct{}{}`"})
+		}
 		wait(l.sendErrAt, "sendEvents runs into the failing Send")
 		wait(w.closedAt, "sendEvents closes the queue")
-		l.cliRecvCh <- cliMsg{err: errBroken}
+		select {
+		case l.cliRecvCh <- cliMsg{err: errBroken}:
+		case <-time.After(handoff):
+			panic(machErr{"hand-off timeout: nobody takes `l.cliRecvCh <- cliMsg{err: errBroken}`"})
+		}
 	}
 	select {
 	case <-l.serveDone:
@@ -488,7 +513,11 @@ func (w *world) apply(op Op) string {
 	case "fetch":
 		l := w.cur
 		if op.Sent {
-			w.fetchGo <- struct{}{}
+			select {
+			case w.fetchGo <- struct{}{}:
+			case <-time.After(handoff):
+				panic(machErr{"hand-off timeout: nobody takes `w.fetchGo <- struct{}{}`"})
+			}
 			wait(w.fetchAt, "sendEvents back at fetch")
 		} else {
 			// Send failed: sendEvents ends, setError closed the queue; readLoop gets the error of the closed conn
@@ -510,7 +539,11 @@ func (w *world) apply(op Op) string {
 		if int(a.EventId) != op.ID {
 			return fmt.Sprintf("ack in flight has id %d, model says %d", a.EventId, op.ID)
 		}
-		l.cliRecvCh <- cliMsg{ack: a}
+		select {
+		case l.cliRecvCh <- cliMsg{ack: a}:
+		case <-time.After(handoff):
+			panic(machErr{"hand-off timeout: nobody takes `l.cliRecvCh <- cliMsg{ack: a}`"})
+		}
 		wait(l.cliRecvAt, "readLoop back in Recv")
 	case "clidetect":
 		w.endClient(w.cur, true)
@@ -533,7 +566,11 @@ func (w *world) apply(op Op) string {
 		if !l.srvAlive {
 			return "server goroutine already ended"
 		}
-		l.srvRecvCh <- srvMsg{ev: e}
+		select {
+		case l.srvRecvCh <- srvMsg{ev: e}:
+		case <-time.After(handoff):
+			panic(machErr{"hand-off timeout: nobody takes `l.srvRecvCh <- srvMsg{ev: e}`"})
+		}
 		if op.Acked {
 			wait(l.srvGateAt, "server goroutine at the ack gate")
 			l.srvAtGate = true
@@ -541,7 +578,11 @@ func (w *world) apply(op Op) string {
 			if autoNext {
 				// repaired code under development: nextEventID is written before the ack is sent, the model has no SrvNext
 				l.srvAtGate = false
-				l.srvGateGo <- struct{}{}
+				select {
+				case l.srvGateGo <- struct{}{}:
+				case <-time.After(handoff):
+					panic(machErr{"hand-off timeout: nobody takes `l.srvGateGo <- struct{}{}`"})
+				}
 				wait(l.srvRecvAt, "server goroutine back in Recv")
 			}
 		} else {
@@ -564,7 +605,11 @@ func (w *world) apply(op Op) string {
 			return fmt.Sprintf("goroutine at the gate acked %d, model says %d", l.srvPending, op.ID)
 		}
 		l.srvAtGate = false
-		l.srvGateGo <- struct{}{}
+		select {
+		case l.srvGateGo <- struct{}{}:
+		case <-time.After(handoff):
+			panic(machErr{"hand-off timeout: nobody takes `l.srvGateGo <- struct{}{}`"})
+		}
 		wait(l.srvRecvAt, "server goroutine back in Recv")
 		if op.Which == "zomb" {
 			w.endServer(l)
@@ -697,7 +742,11 @@ func (w *world) hello(op Op) string {
 
 // cleanup ends every goroutine that can be ended.
 func (w *world) cleanup() {
-	defer func() { recover() }()
+	defer func() {
+		if r := recover(); r != nil {
+			atomic.AddInt64(&machTrouble, 1) // the wind-down itself ran into a hand-off that never happens
+		}
+	}()
 	for _, l := range []*link{w.cur, w.zomb} {
 		if l == nil {
 			continue
@@ -710,7 +759,11 @@ func (w *world) cleanup() {
 		}
 		if l.srvAlive && l.srvAtGate && !l.srvParked {
 			l.srvAtGate = false
-			l.srvGateGo <- struct{}{}
+			select {
+			case l.srvGateGo <- struct{}{}:
+			case <-time.After(handoff):
+				panic(machErr{"hand-off timeout: nobody takes `l.srvGateGo <- struct{}{}`"})
+			}
 			wait(l.srvRecvAt, "cleanup")
 		}
 		w.endServer(l)
@@ -731,7 +784,12 @@ func (w *world) realState() (St, map[string]interface{}) {
 	extra := map[string]interface{}{}
 	lt := w.A.VerifLocalTopics()
 	extra["localTopics"] = lt
-	st.PeerOn = w.peer != nil && len(w.A.VerifPeerNames()) > 0
+	st.PeerOn = false
+	for _, n := range w.A.VerifPeerNames() {
+		if n == "B" && w.peer != nil {
+			st.PeerOn = true
+		}
+	}
 	if m := w.aRet.GetRetainedMessage("r"); m != nil {
 		st.Aret = payloadNo(m.Payload)
 	}
@@ -963,6 +1021,8 @@ var (
 	autoNext = false
 )
 
+var machTrouble, skippedAfterTrouble, nDivergent int64
+
 func noteMinimal(sig, what string, n int, js []byte) {
 	minMu.Lock()
 	if l, ok := minLen[sig]; !ok || n < l {
@@ -980,9 +1040,20 @@ func one(js []byte) {
 		return
 	}
 	atomic.AddInt64(&rep.N, 1)
+	if atomic.LoadInt64(&machTrouble) >= 8 || atomic.LoadInt64(&nDivergent) >= 300 {
+		// the real objects no longer hand off the way the driver expects (each such transition costs a 20 s timeout), or 300
+		// transitions have diverged already (their worlds are abandoned, not wound down): the remaining transitions are not
+		// replayed; what was observed so far is reported
+		atomic.AddInt64(&skippedAfterTrouble, 1)
+		return
+	}
 	for try := 0; ; try++ {
-		again, fatal := attempt(&t, js)
+		again, fatal, diverged := attempt(&t, js)
+		if diverged {
+			atomic.AddInt64(&nDivergent, 1)
+		}
 		if fatal != "" {
+			atomic.AddInt64(&machTrouble, 1)
 			rep.Div("harness", fatal, js, nil)
 			return
 		}
@@ -1004,9 +1075,23 @@ func one(js []byte) {
 	rep.Sample(js, 3)
 }
 
-func attempt(t *Trans, js []byte) (again bool, fatal string) {
+func attempt(t *Trans, js []byte) (again bool, fatal string, diverged bool) {
 	w := newWorld()
-	defer w.cleanup()
+	// a world that has left the specification is abandoned (its goroutines are parked at hand-off points the orderly
+	// wind-down would wait for in vain)
+	defer func() {
+		if diverged {
+			w.B.VerifStop()
+		} else {
+			w.cleanup()
+		}
+	}()
+	div := func(sig, what string, extra map[string]interface{}) {
+		if sig != "harness" && !strings.HasPrefix(sig, "C16:") {
+			diverged = true // model and code disagree (a clause violated on conforming objects is not that)
+		}
+		rep.Div(sig, what, js, extra)
+	}
 	defer func() {
 		if r := recover(); r != nil {
 			switch x := r.(type) {
@@ -1015,26 +1100,26 @@ func attempt(t *Trans, js []byte) (again bool, fatal string) {
 			case machErr:
 				fatal = x.s
 			default:
-				rep.Div("panic:"+t.Op.Op, fmt.Sprintf("panic while replaying: %v", r), js, nil)
+				div("panic:"+t.Op.Op, fmt.Sprintf("panic while replaying: %v", r), nil)
 			}
 		}
 	}()
 	for i, op := range t.Pre {
 		if msg := w.apply(op); msg != "" {
 			// every prefix is itself a transition that is checked on its own line; here it is only a path
-			rep.Div("pre:"+op.Op, fmt.Sprintf("step %d (%s) of the prefix: %s", i, op.Op, msg), js, nil)
+			div("pre:"+op.Op, fmt.Sprintf("step %d (%s) of the prefix: %s", i, op.Op, msg), nil)
 			return
 		}
 	}
 	if msg := w.apply(t.Op); msg != "" {
-		rep.Div("op:"+t.Op.Op, t.Op.Op+": "+msg, js, nil)
+		div("op:"+t.Op.Op, t.Op.Op+": "+msg, nil)
 		return
 	}
 	real, extra := w.realState()
 	lt := extra["localTopics"].(map[string]uint64)
 	if diffs := compare(real, lt, t.St); len(diffs) > 0 {
 		comp := strings.SplitN(diffs[0], ":", 2)[0]
-		rep.Div("state:"+t.Op.Op+":"+comp, fmt.Sprintf("after %s the real objects differ from the specification: %s", t.Op.Op, strings.Join(diffs, "; ")), js, nil)
+		div("state:"+t.Op.Op+":"+comp, fmt.Sprintf("after %s the real objects differ from the specification: %s", t.Op.Op, strings.Join(diffs, "; ")), nil)
 		return
 	}
 	if len(t.Bad) > 0 {
@@ -1047,7 +1132,7 @@ func attempt(t *Trans, js []byte) (again bool, fatal string) {
 		for _, b := range t.Bad {
 			obs, ok := rb[b]
 			if !ok {
-				rep.Div("harness", "the model reports "+b+" violated, the evaluation on the real objects does not", js, nil)
+				div("harness", "the model reports "+b+" violated, the evaluation on the real objects does not", nil)
 				continue
 			}
 			// tainted = the history contains the trigger of a recorded finding: the signature names the trigger(s);
@@ -1058,11 +1143,11 @@ func attempt(t *Trans, js []byte) (again bool, fatal string) {
 			}
 			obs = b + ": " + obs
 			noteMinimal(sig, obs, len(t.Pre), js)
-			rep.Div(sig, obs, js, map[string]interface{}{"history_len": len(t.Pre) + 1, "taint": t.Taint})
+			div(sig, obs, map[string]interface{}{"history_len": len(t.Pre) + 1, "taint": t.Taint})
 		}
 	} else if rb := realBad(real, lt); len(rb) > 0 {
 		for k, v := range rb {
-			rep.Div("harness", "real objects violate "+k+" but the model does not say so: "+v, js, nil)
+			div("harness", "real objects violate "+k+" but the model does not say so: "+v, nil)
 		}
 	}
 	return
@@ -1190,7 +1275,11 @@ func probeSpin() {
 	var ru0, ru1 syscall.Rusage
 	syscall.Getrusage(syscall.RUSAGE_SELF, &ru0)
 	t0 := time.Now()
-	l.srvGateGo <- struct{}{}
+	select {
+	case l.srvGateGo <- struct{}{}:
+	case <-time.After(handoff):
+		panic(machErr{"hand-off timeout: nobody takes `l.srvGateGo <- struct{}{}`"})
+	}
 	back := false
 	select {
 	case <-l.srvRecvAt:
@@ -1269,6 +1358,6 @@ func main() {
 		fmt.Fprintln(os.Stderr, err)
 		os.Exit(2)
 	}
-	rep.Summary(map[string]interface{}{"retries": atomic.LoadInt64(&retries), "bad_states": atomic.LoadInt64(&badSeen),
+	rep.Summary(map[string]interface{}{"retries": atomic.LoadInt64(&retries), "bad_states": atomic.LoadInt64(&badSeen), "skipped_after_trouble": atomic.LoadInt64(&skippedAfterTrouble),
 		"minimal": minimal, "ops": opCount})
 }
